@@ -147,6 +147,21 @@ CLAIMED["C17"] = {
     "technique": "guarded-call chain extraction + slice-list terms + callee identity + panic census",
 }
 
+CLAIMED["C06"] = {
+    "category": "other",
+    "text": "Slot coverage of multiboot2::Builder::build() decided on MIR for all 22 slots at once (i.e. for all 2^22 subsets): exactly one push per slot, of the tag's as_bytes() view, whose only guard is the slot's own Some-test (Option) or a forward loop over the vector with one push per element (Vec); the end tag pushed once, on every path, with no push after it; result = new_boxed(fresh header, pushed slices). Setters: each writes exactly one slot (Some(v): last call wins; push(v): call order) with the slot's tag type, setter -> slot is a bijection; add_custom_tag pushes iff the type classifies as Custom, else panics. Imports C16 (layout/size), C07 (EndTag image), C02 (loads), C03 (walk).",
+    "design_ref": "DESIGN.md §4 C06, §3.10",
+    "note": TB + "; Vec::push order and slice iteration order are std contracts; the concatenation/loading argument is a hand step over the imported premises",
+    "technique": "push-site census with provenance and control-dependence (own guard) analysis + setter write-sets and bijection + imported premises",
+}
+CLAIMED["C12"] = {
+    "category": "other",
+    "text": "Slot coverage of multiboot2_header::Builder::build() for all 10 slots (all 2^10 subsets at once): one guarded push per slot, the end tag (type 0, flags 0, size 8 by C07) pushed once, last, on every path; the fresh basic header is Multiboot2BasicHeader::new(self.arch, 0) whose image is {magic 0xE85250D6, arch, length, checksum = -(magic+arch+length)} (ring normal form); setter write-sets and bijection; Builder::new stores the architecture. Imports C16 (layout; set_size patches length and checksum, C10.K), C07 (tag images, alignment 8), C10 (the result loads).",
+    "design_ref": "DESIGN.md §4 C12",
+    "note": TB + "; the concatenation/loading argument is a hand step over the imported premises",
+    "technique": "push-site census with provenance and control-dependence analysis + constructor image + ring normal form + imported premises",
+}
+
 PENDING = "check not yet built in this session (machinery under construction; see DESIGN.md §9 build order) - not claimed until its premises run, pass on the repaired tree and fire on seeded breaks"
 NOT_APPLICABLE = {("C%02d" % i): PENDING for i in range(1, 21)}
 
